@@ -801,6 +801,7 @@ func errorDiscipline(r *Run, rule string, fn *Func) {
 			n    int
 		}
 		sites := map[token.Pos]*site{}
+		paths = OwnOnly(paths) // every function of the scope is judged on its own call sites
 		for i := range paths {
 			p := &paths[i]
 			for ci, e := range p.Ev {
